@@ -1565,6 +1565,74 @@ pub fn ac_overlapping<C: Case, const N: usize>(ac: &AhoCorasick) {
     cover!(w.is_some(), "a match");
 }
 
+/// The top-level searcher's metadata getters and every forwarder of
+/// `impl Automaton for Arc<dyn AcAutomaton>` (stream search, the iterators and
+/// the replace routines of `AhoCorasick` reach the automaton only through
+/// them) agree with the automaton they wrap: metadata vs the pattern list as
+/// supplied, and - for the start states and their successors under a symbolic
+/// byte - every state-level method vs the direct call.
+#[cfg(kani)]
+pub fn ac_meta<C: Case, A: Automaton>(ac: &AhoCorasick, a: &A) {
+    use aho_corasick::verif::ac as hk;
+    assert!(ac.patterns_len() == C::NPATS, "AhoCorasick::patterns_len");
+    let mk = match C::MK { 0 => aho_corasick::MatchKind::Standard, 1 => aho_corasick::MatchKind::LeftmostFirst, _ => aho_corasick::MatchKind::LeftmostLongest };
+    assert!(ac.match_kind() == mk, "AhoCorasick::match_kind");
+    assert!(ac.start_kind() == hk::sk_from_u8(C::SK), "AhoCorasick::start_kind");
+    let (np, mn, mx, fmk, pf) = hk::fwd_meta(ac);
+    assert!(np == C::NPATS && fmk == mk, "forwarded patterns_len / match_kind");
+    assert!(pf == a.prefilter().is_some(), "forwarded prefilter");
+    if C::NPATS > 0 {
+        assert!(ac.min_pattern_len() == C::MINLEN && mn == C::MINLEN, "min_pattern_len through the top-level searcher");
+        assert!(ac.max_pattern_len() == C::MAXLEN && mx == C::MAXLEN, "max_pattern_len through the top-level searcher");
+        let p: usize = any();
+        assume(p < C::NPATS);
+        let pid = aho_corasick::PatternID::new_unchecked(p);
+        assert!(hk::fwd_pattern_len(ac, pid) == C::pats()[p].len(), "forwarded pattern_len");
+    }
+    let an: bool = any();
+    let r1 = hk::fwd_start_state(ac, anch(an));
+    let r2 = a.start_state(anch(an));
+    assert!(r1.is_ok() == r2.is_ok(), "forwarded start_state: Ok/Err differs");
+    if let (Ok(s1), Ok(s2)) = (&r1, &r2) {
+        assert!(*s1 == *s2, "forwarded start_state");
+        let b: u8 = any();
+        let t1 = hk::fwd_next_state(ac, anch(an), *s1, b);
+        let t2 = a.next_state(anch(an), *s2, b);
+        assert!(t1 == t2, "forwarded next_state");
+        let c: u8 = any();
+        let u1 = hk::fwd_next_state(ac, anch(an), t1, c);
+        let u2 = a.next_state(anch(an), t2, c);
+        assert!(u1 == u2, "forwarded next_state (second step)");
+        assert!(hk::fwd_flags(ac, u1) == (a.is_special(u2), a.is_dead(u2), a.is_match(u2), a.is_start(u2)), "forwarded is_special/is_dead/is_match/is_start");
+        if a.is_match(u2) {
+            assert!(hk::fwd_match_len(ac, u1) == a.match_len(u2), "forwarded match_len");
+            let k: usize = any();
+            assume(k < a.match_len(u2));
+            assert!(hk::fwd_match_pattern(ac, u1, k) == a.match_pattern(u2, k), "forwarded match_pattern");
+        }
+        cover!(a.is_match(u2), "a match state two steps from the start");
+    }
+    core::mem::forget(r1);
+    core::mem::forget(r2);
+}
+
+/// The stream iterator built by the top-level searcher starts like the one of
+/// the automaton: roll buffer minimum = longest pattern (it is computed through
+/// the `Arc<dyn AcAutomaton>` forwarder).
+#[cfg(kani)]
+pub fn ac_stream_init<C: Case, const SPARE: usize>(ac: &AhoCorasick) {
+    aho_corasick::verif::buffer::set_spare_capacity(Some(SPARE));
+    let data: [u8; 1] = any();
+    let rdr = SymReader::new(&data[..], 0, usize::MAX);
+    let it = ac.try_stream_find_iter(rdr).unwrap();
+    let (sid, start, abs, bpos, rpos, end, cap, min) = aho_corasick::verif::ac::stream_parts(&it);
+    assert!(sid == start, "stream search does not begin in the start state");
+    assert!(abs == 0 && bpos == 0 && rpos == 0 && end == 0, "stream iterator does not begin at offset 0 with an empty buffer");
+    assert!(min == C::MAXLEN, "roll buffer minimum is not the longest pattern (top-level searcher)");
+    assert!(cap == C::MAXLEN + SPARE && cap > min, "roll buffer capacity does not exceed the longest pattern");
+    core::mem::forget(it);
+}
+
 // ---------------------------------------------------------------------------
 // C02/C03: the standard-semantics DFA against the textbook automaton, per
 // state (inductive: covers haystacks of every length for the pattern list)
